@@ -156,7 +156,7 @@ def run(module, cfg, workdir, workers=None, files=None, extra=None, timeout=1800
   meta = tempfile.mkdtemp(prefix='meta-', dir=workdir)
   if workers is None:
     workers = min(16, os.cpu_count() or 4)
-  cmd = ['java', '-XX:+UseParallelGC', '-Xss16m']
+  cmd = ['java', '-XX:+UseParallelGC', '-Xss16m', '-Djava.io.tmpdir=%s' % workdir]   # TLC unpacks its standard modules there
   cmd += (jvm or [])
   cmd += ['-cp', JAR, 'tlc2.TLC', '-workers', str(workers), '-metadir', meta,
           '-noGenerateSpecTE', '-config', cfgname]
